@@ -45,6 +45,19 @@ IPARTS = [(0, 0), (3, -7), (-7, 1000), (1000, 3)]
 PI = math.pi
 THETAS = [0.0, PI / 8, PI / 4, PI / 4 + 1e-10, PI / 2, 1.0, 3 * PI / 4, PI, 2.5, -0.3]
 THETAS_Q = [0.0, PI / 4, PI / 2, 1.0, 2.5]
+# the same alphabet in degrees (index-aligned: what a user writes for these angles; 45 + 6e-9 deg = pi/4 + 1e-10 rad)
+THETAS_DEG = [0.0, 22.5, 45.0, 45.0 + 6e-9, 90.0, 57.3, 135.0, 180.0, 143.2, -17.2]
+DEG_OF = dict(zip(THETAS, THETAS_DEG))
+THETA_FAMILIES = ('ellipse', 'eannulus', 'rect', 'rannulus')
+# representation of the rotation angle (documented: float = radians, or an angular Quantity / Angle in any unit).
+#  * 'float' is the representation of the main product;
+#  * TREPS_EXACT hold the same radian number in another type (conversion to radians is exact): the aperture must
+#    be bit-identical to the float one ('int' only for integer-valued angles);
+#  * TREPS_UNIT give the angle in another unit (conversion rounds): judged against the reference evaluated at the
+#    radian value; the Angle of the same number and unit must be bit-identical to the Quantity.
+TREPS_EXACT = ['np.float64', 'int', 'Quantity[rad]', 'Angle[rad]']
+TREPS_UNIT = ['Quantity[deg]', 'Quantity[arcmin]']
+TREPS_SAME = {'Quantity[deg]': ['Angle[deg]'], 'Quantity[arcmin]': ['Angle[arcmin]']}
 RATIOS = [0.1, 0.5, 0.9, 0.999]
 RADII = [0.03, 0.3, 0.5, math.sqrt(0.5), 1.0, S25, 1.5, 2.0, S5, 2.5, 3.3, 5.0, 7.07, 25.0]
 BIG = [100.0, 300.0]
@@ -189,8 +202,49 @@ def centre_level(family, tier, size):
 # the real objects
 # ---------------------------------------------------------------------------
 
+def with_rep(p, rep, tval=None):
+    """the shape p with its angle expressed in representation ``rep``.  'theta' stays the radian value at which
+    the reference model is evaluated (for another unit: the alphabet angle in degrees, converted in plain Python)."""
+    if rep == 'float':
+        return {k: v for k, v in p.items() if k not in ('trep', 'tval')}
+    if rep in TREPS_EXACT or rep.endswith('[rad]'):
+        return dict(p, trep=rep, tval=p['theta'])
+    deg = DEG_OF[p['theta']] if tval is None else tval
+    if rep.endswith('[deg]'):
+        return dict(p, theta=math.radians(deg), trep=rep, tval=deg)
+    if rep.endswith('[arcmin]'):
+        return dict(p, theta=math.radians(deg), trep=rep, tval=deg * 60.0)
+    raise ValueError(rep)
+
+
+def same_reps(p):
+    """representations that must give a bit-identical aperture to the one of p"""
+    rep = p.get('trep', 'float')
+    if rep == 'float':
+        return [r for r in TREPS_EXACT if r != 'int' or float(p['theta']).is_integer()]
+    return TREPS_SAME.get(rep, [])
+
+
+def theta_arg(p):
+    """the object handed to the constructor / setter as ``theta``"""
+    rep = p.get('trep', 'float')
+    if rep == 'float':
+        return p['theta']
+    v = p['tval']
+    if rep == 'np.float64':
+        return np.float64(v)
+    if rep == 'int':
+        return int(v)
+    import astropy.units as u
+    from astropy.coordinates import Angle
+    kind, unit = rep[:-1].split('[')
+    return u.Quantity(v, unit) if kind == 'Quantity' else Angle(v, unit)
+
+
 def build(family, p, positions):
     from photutils import aperture as A
+    if 'theta' in p:
+        p = dict(p, theta=theta_arg(p))
     if family == 'circle':
         return A.CircularAperture(positions, p['r'])
     if family == 'cannulus':
@@ -238,6 +292,8 @@ def predicate(family, p):
         tags.append('large')
     if small / big <= 0.02 + 1e-12:
         tags.append('needle')
+    if p.get('trep', 'float') != 'float':
+        tags.append('theta=' + p['trep'])
     return '+'.join(tags) or 'regular'
 
 
@@ -345,7 +401,10 @@ def check_bbox(acc, family, p, positions, idx, bbox, scalar=False):
             if got not in adm:
                 ok = False
                 small = (which == 'min' and got > max(adm)) or (which == 'max' and got < min(adm))
-                acc.violation('bbox-contains' if small else 'bbox-minimal', f'{family}:{nm}{which}:{predicate(family, p)}',
+                # (for an angle given in a non-float representation the side is not part of the key: one defect of
+                # the angle handling shows on all four sides)
+                side = '' if p.get('trep', 'float') != 'float' else f'{nm}{which}:'
+                acc.violation('bbox-contains' if small else 'bbox-minimal', f'{family}:{side}{predicate(family, p)}',
                               case, f'i{nm}{which}={got} (bbox {bbox!r})',
                               f'i{nm}{which} in {sorted(adm)} for extent [{c - e!r}, {c + e!r}]')
     acc.case(nontrivial=True, sample=case if acc.evaluations % 20011 == 3 else None)
@@ -449,45 +508,112 @@ def check_mask(acc, family, p, positions, idx, method, s, mask, bbox, stats=None
         acc.outcome(hashlib.blake2b(data.tobytes(), digest_size=8).hexdigest())
 
 
+REASSIGN_METHODS = [('exact', 5), ('center', 5), ('subpixel', 2)]
+# representation in which theta is given before / assigned after (rotated over the cases of a unit; the unit
+# representations use the degree alphabet, the comparison object is a fresh aperture built with the very same argument)
+REASSIGN_REPS = ['float', 'Quantity[deg]', 'Quantity[rad]', 'Angle[deg]', 'np.float64', 'Quantity[arcmin]']
+
+
+def _reads(ap):
+    """every read of the property on an aperture, as comparable plain data (also fills every cache)"""
+    out = {'bbox': [(b.ixmin, b.ixmax, b.iymin, b.iymax) for b in ap.bbox], 'area': ap.area}
+    for m, s in REASSIGN_METHODS:
+        out[f'to_mask:{m}'] = [(mk.bbox.ixmin, mk.bbox.ixmax, mk.bbox.iymin, mk.bbox.iymax, mk.data.shape, mk.data.tobytes())
+                               for mk in ap.to_mask(method=m, subpixels=s)]
+    return out
+
+
 def check_reassign(acc, family, p1, pos1, p2, pos2, positions_first=False):
-    """The cached state of an aperture (lazy bbox / centred edges / area) must follow parameter re-assignment:
-    build (p1, pos1), read bbox, a mask and the area (fills the caches), assign every parameter of p2 and the
-    positions pos2, and require exactly what a freshly constructed aperture (p2, pos2) reports (the fresh object
-    itself is judged against the reference by the mask / bbox cases)."""
+    """The cached state of an aperture (lazy bbox / centred edges / area, anything memoised by to_mask) must follow
+    parameter re-assignment: build (p1, pos1), perform every read (bbox, area, to_mask with every method: fills the
+    caches), then assign the parameters of p2 and the positions pos2 ONE AT A TIME; after every single assignment
+    whose parameter set is a valid aperture, every read must equal that of a freshly constructed aperture with the
+    same parameters (so each setter is judged on its own, not masked by the invalidation done by the next one; the
+    fresh object itself is judged against the reference by the mask / bbox cases).  p1 / p2 carry the representation
+    of theta ('trep'): the setter receives the same object a constructor would."""
     case = {'what': 'reassign', 'family': family, 'params_before': p1, 'positions_before': pos1, 'params': p2, 'positions': pos2,
             'positions_first': bool(positions_first)}
     acc.case(nontrivial=True, sample=case if acc.counters['reassign_cases'] % 997 == 1 else None)
     acc.counters['reassign_cases'] += 1
+    skip = ('trep', 'tval')
     try:
-        fresh = build(family, p2, pos2)
+        fresh1, fresh2 = build(family, p1, pos1), build(family, p2, pos2)
         ap = build(family, p1, pos1)
-        _ = ap.bbox, ap.area, ap.to_mask(method='center'), ap.to_mask(method='exact')
+        _reads(ap)
+        # current parameter set (None = derived default, resolved on the fresh objects, never on the one under test)
+        cur = {k: (getattr(fresh1, k) if v is None else v) for k, v in p1.items()}
+        cur_pos = pos1
+        names = [k for k in p2 if k not in skip]
         # both orders of invalidation are enumerated by the caller (positions first / last)
-        names = [k for k in p2]
         order = (['positions'] + names) if positions_first else (names + ['positions'])
-        for nm in order:
-            setattr(ap, nm, pos2 if nm == 'positions' else (getattr(fresh, nm) if p2[nm] is None else p2[nm]))
-            try:        # re-fill the caches after every single assignment (intermediate parameter sets may be
-                _ = ap.bbox, ap.area, ap.to_mask(method='center')   # inconsistent, e.g. r_in > r_out: not judged)
+        for step, nm in enumerate(order):
+            if nm == 'positions':
+                cur_pos = pos2
+                ap.positions = pos2
+            else:
+                cur[nm] = getattr(fresh2, nm) if p2[nm] is None else p2[nm]
+                if nm == 'theta':
+                    for k in skip:
+                        cur.pop(k, None)
+                        if k in p2:
+                            cur[k] = p2[k]
+                    ap.theta = theta_arg(p2)
+                else:
+                    setattr(ap, nm, cur[nm])
+            try:
+                want = _reads(build(family, cur, cur_pos))
             except Exception:
-                pass
-        for what, get in (('bbox', lambda a: [(b.ixmin, b.ixmax, b.iymin, b.iymax) for b in a.bbox]),
-                          ('area', lambda a: a.area),
-                          ('to_mask:exact', lambda a: [(m.bbox.ixmin, m.bbox.iymin, m.data.tobytes()) for m in a.to_mask(method='exact')]),
-                          ('to_mask:center', lambda a: [(m.bbox.ixmin, m.bbox.iymin, m.data.tobytes()) for m in a.to_mask(method='center')])):
-            got, want = get(ap), get(fresh)
-            if got != want:
-                acc.violation('stale-cache', f'{family}:{what}', case, 'differs from a fresh aperture' if 'mask' in what else got,
-                              'same as fresh aperture' if 'mask' in what else want)
+                # the intermediate parameter set is not a valid aperture (e.g. r_in > r_out): not judged, but the
+                # caches are re-filled as far as possible
+                try:
+                    _reads(ap)
+                except Exception:
+                    pass
+                continue
+            acc.counters['reassign_steps_judged'] += 1
+            got = _reads(ap)
+            for what in want:
+                if got[what] != want[what]:
+                    acc.violation('stale-cache', f'{family}:{what}:after-{nm}', dict(case, step=step),
+                                  'differs from a fresh aperture' if 'mask' in what else got[what],
+                                  'same as fresh aperture' if 'mask' in what else want[what],
+                                  f'after assigning {order[:step + 1]} (last: {nm}); parameters now {cur}')
     except Exception as e:
         acc.violation('raises', f'{family}:reassign:{type(e).__name__}', case, repr(e), 'no exception')
+
+
+def check_same_rep(acc, family, p, positions, rep, boxes, by_method, sel):
+    """aperture of p with theta given in representation ``rep`` (exactly the same angle) vs the aperture of p"""
+    case = {'family': family, 'params': p, 'positions': positions, 'index': 0, 'what': 'trep', 'trep': rep}
+    q = dict(p, trep=rep, tval=p.get('tval', p['theta']))
+    acc.case(nontrivial=p['theta'] != 0.0, sample=case if acc.counters['theta_representation_cases'] % 2003 == 7 else None)
+    acc.counters['theta_representation_cases'] += 1
+    try:
+        alt = build(family, q, positions)
+        ab = list(alt.bbox)
+        if len(ab) != len(boxes) or any(not (ab[i] == boxes[i]) for i in sel):
+            i = next((i for i in sel if i >= len(ab) or not (ab[i] == boxes[i])), 0)
+            acc.violation('theta-representation', f'{family}:{rep}:bbox', dict(case, index=i),
+                          repr(ab[i]) if i < len(ab) else len(ab), repr(boxes[i]),
+                          f'theta={theta_arg(q)!r} vs theta={theta_arg(p)!r}')
+        if not alt.area == build(family, p, positions).area:
+            acc.violation('theta-representation', f'{family}:{rep}:area', case, alt.area, 'area of the same aperture')
+        for (method, s), masks in by_method.items():
+            am = alt.to_mask(method=method, subpixels=s)
+            for i in sel:
+                if not same_mask(am[i], masks[i]):
+                    acc.violation('theta-representation', f'{family}:{rep}:to_mask', dict(case, index=i, method=method, subpixels=s),
+                                  'masks differ', 'bit-identical masks', f'theta={theta_arg(q)!r} vs theta={theta_arg(p)!r}')
+                    break
+    except Exception as e:
+        acc.violation('raises', f'{family}:theta={rep}:{type(e).__name__}', case, repr(e), 'no exception')
 
 
 def same_mask(a, b):
     return (a.bbox == b.bbox) and a.data.shape == b.data.shape and np.array_equal(a.data, b.data, equal_nan=True)
 
 
-def run_group(acc, family, p, positions, methods, only=None, stats=None):
+def run_group(acc, family, p, positions, methods, only=None, stats=None, reps=True):
     """One aperture object with a list of positions: bbox of every position, every method, plus the scalar
     aperture for position 0.  ``only`` = (index, what) restricts to one case (replay; ``methods`` then holds the
     single method of the case)."""
@@ -549,6 +675,13 @@ def run_group(acc, family, p, positions, methods, only=None, stats=None):
                     if not same_mask(by_method[ka][idx], other[idx]):
                         acc.violation(clause, family, dict(case0, index=idx, method=ka[0], subpixels=ka[1]),
                                       'masks differ', 'bit-identical masks')
+    if what in (None, 'trep') and 'theta' in p and reps:
+        # the same angle in another representation (same number in another type, or an Angle instead of a Quantity
+        # of the same number and unit): bit-identical boxes and masks, every position, every method
+        for rep in same_reps(p):
+            if only is not None and what == 'trep' and only[2] != rep:
+                continue
+            check_same_rep(acc, family, p, positions, rep, boxes, by_method, sel)
     if what in (None, 'scalar'):
         # the scalar form of position 0 must give the same objects as entry 0 of the list form
         try:
@@ -757,10 +890,20 @@ def run_unit(unit, tier, seed):
             p, size = shapes[k]
             methods = methods_for(tier, size, fam)
             groups = centre_groups(seed, centre_level(fam, tier, size))
-            for positions in groups:
-                run_group(acc, fam, p, positions, methods)
+            for gi, positions in enumerate(groups):
+                # the same-angle representations: every group up to size 30, first group beyond
+                run_group(acc, fam, p, positions, methods, reps=(gi == 0 or size <= 30))
+            if fam in THETA_FAMILIES:
+                # the angle given in another unit: every shape x every method x first centre group
+                for rep in TREPS_UNIT:
+                    run_group(acc, fam, with_rep(p, rep), groups[0], methods)
             if prev is not None and size <= 30:
-                check_reassign(acc, fam, prev[0], prev[1], p, groups[-1], positions_first=bool(k % 2))
+                p1, p2 = prev[0], p
+                if fam in THETA_FAMILIES:
+                    # (order, representation assigned, representation before): full product over 72 consecutive shapes
+                    p1 = with_rep(p1, REASSIGN_REPS[(k // 12) % len(REASSIGN_REPS)])
+                    p2 = with_rep(p2, REASSIGN_REPS[(k // 2) % len(REASSIGN_REPS)])
+                check_reassign(acc, fam, p1, prev[1], p2, groups[-1], positions_first=bool(k % 2))
             prev = (p, groups[0])
     elif kind == 'overlap':
         ix = unit['ixmin']
@@ -806,7 +949,7 @@ def replay(case, seed):
     else:
         fam, p, positions = case['family'], case['params'], case['positions']
         method, s = case.get('method', 'center'), case.get('subpixels', 5)
-        run_group(acc, fam, p, positions, [(method, s)], only=(case['index'], what))
+        run_group(acc, fam, p, positions, [(method, s)], only=(case['index'], what, case.get('trep')))
     return acc
 
 
